@@ -383,6 +383,7 @@ class Runner:
         im = parse_image(ans)
         out["host_indirect"] = im["indirect"]
         out["model_observed"] = self.rust_observe(params_ty(m), vals_term(vals))
+        out["ledger_model"] = host.rq(f"ledger|{P}|{m['func']}|{vals_term(vals)}|{ret if ret is not None else '_'}")
         r = native.rq(f"SCRIPT|{m['key']}|{ret if ret is not None else '(r)'}")
         if r is None: raise Crash("SCRIPT")
         flat, hostblocks = place_image(native, im)
@@ -719,6 +720,27 @@ def value_corr(m, o):
     else:
         impl = f"args:{cs(o.get('lifted_args'), pt)} result:{cs(o.get('returned'), rt) if rt else '-'}"
         model = f"args:{cs(vals_term(o['vals']), pt)} result:{cs(o.get('model_returned'), rt) if rt else '-'}"
+    return impl, model
+
+
+def ledger_counts(o):
+    """(impl, model) of the per-class event counts of an export call, or None when not comparable
+    (maps: the number of internal nodes of BTreeMap/HashMap is not modelled)"""
+    lm = o.get("ledger_model") or ""
+    if not lm.startswith("ok ") or "call_report" not in o:
+        return None
+    kv = dict(x.split("=") for x in lm[3:].split(" "))
+    if kv["hasmap"] == "1":
+        return None
+    rep, post = o["call_report"], o.get("post_report")
+    live_g = [(a["addr"], a["size"], a["align"]) for a in rep["allocs"] if a["tag"] == "G" and a["live"]]
+    freed_post = [(f["addr"], f["size"], f["align"]) for f in post["frees"]] if post else []
+    impl = {"galloc": sum(1 for a in rep["allocs"] if a["tag"] == "G"),
+            "hostfree": sum(1 for f in rep["frees"] if f["tag"] == "H"),
+            "gfree": sum(1 for f in rep["frees"] if f["tag"] == "G"),
+            "postfree": len(freed_post),
+            "leak": len([b for b in live_g if b not in freed_post])}
+    model = {k: int(kv[k]) for k in impl}
     return impl, model
 
 
